@@ -99,11 +99,32 @@ def extract_region(fn, test_text, which=0):
     """A region of a long function, addressed structurally: the body of the `which`-th `if` statement whose test
     unparses to `test_text` (e.g. "state is stDecodeTag").  Returned as a synthetic FunctionDef so that the
     executor can run it; live-in variables are the region contract's parameters."""
-    found = [n for n in ast.walk(fn) if isinstance(n, ast.If) and ast.unparse(n.test) == test_text]
-    if len(found) <= which:
-        raise ContractError('region %r not found in %s' % (test_text, fn.name))
-    node = found[which]
-    region = ast.FunctionDef(name='%s@%s' % (fn.name, test_text), args=fn.args, body=node.body, decorator_list=[],
+    body = None
+    if test_text.startswith('tail:'):
+        # the statements of a block from the one that unparses to the given text to the end of that block
+        first = test_text[5:].strip()
+        hits = []
+        for n in ast.walk(fn):
+            for fld in ('body', 'orelse', 'finalbody'):
+                blk = getattr(n, fld, None)
+                if isinstance(blk, list):
+                    for k, st in enumerate(blk):
+                        if isinstance(st, ast.stmt) and ast.unparse(st).split('\n')[0] == first:
+                            hits.append((st, blk[k:]))
+        if len(hits) <= which:
+            raise ContractError('region %r not found in %s' % (test_text, fn.name))
+        node, body = hits[which]
+    else:
+        want_else = test_text.endswith(' #else')
+        text = test_text[:-6] if want_else else test_text
+        found = [n for n in ast.walk(fn) if isinstance(n, ast.If) and ast.unparse(n.test) == text]
+        if len(found) <= which:
+            raise ContractError('region %r not found in %s' % (test_text, fn.name))
+        node = found[which]
+        body = node.orelse if want_else else node.body
+        if not body:
+            raise ContractError('region %r of %s is empty' % (test_text, fn.name))
+    region = ast.FunctionDef(name='%s@%s' % (fn.name, test_text), args=fn.args, body=body, decorator_list=[],
                              returns=None, type_comment=None, lineno=node.lineno, col_offset=0)
     return ast.fix_missing_locations(region)
 
@@ -1241,10 +1262,71 @@ class Executor:
             if v is _MISSING:
                 continue
             self.env[m] = self.havoc_value(v, '%s!L%d' % (m, lid))
+        self._havocked_fields = set()
         for path in loop.havoc_fields:
             base, attr = path.rsplit('.', 1)
             o = self.spec_val(base, self.env)
             o.fields[attr] = self.havoc_value(o.fields[attr], '%s!L%d' % (path, lid))
+            self._havocked_fields.add((o.uid, attr))
+
+    def reachable_objs(self, env):
+        out = {}
+
+        def walk(v, depth=0):
+            if depth > 12:
+                return
+            if isinstance(v, Obj):
+                if v.uid in out:
+                    return
+                out[v.uid] = v
+                for f in v.fields.values():
+                    walk(f, depth + 1)
+            elif isinstance(v, Tup):
+                for i in v.items:
+                    walk(i, depth + 1)
+            elif isinstance(v, DictV):
+                for e in v.entries.values():
+                    walk(e[1] if isinstance(e, tuple) else e, depth + 1)
+            elif isinstance(v, dict):
+                for e in v.values():
+                    walk(e, depth + 1)
+        for v in env.values():
+            walk(v)
+        return out
+
+    def check_loop_frame(self, before_env, lid):
+        """soundness guard of a cut loop: a field of a heap object that the body changed must have been havocked
+        (Loop.havoc_fields), otherwise the arbitrary iteration would be checked with the first iteration's heap"""
+        def same(x, y):
+            if x is y:
+                return True
+            if isinstance(x, z3.ExprRef) and isinstance(y, z3.ExprRef):
+                return x.eq(y)
+            if isinstance(x, Obj) and isinstance(y, Obj):
+                return x.uid == y.uid
+            if isinstance(x, SeqV) and isinstance(y, SeqV):
+                return x.z.eq(y.z)
+            if isinstance(x, RecSeqV) and isinstance(y, RecSeqV):
+                return len(x.cols) == len(y.cols) and all(i.eq(j) for i, j in zip(x.cols, y.cols))
+            if isinstance(x, (ExcV, ClassV, OpaqueStr)) and type(x) is type(y):
+                return True
+            if isinstance(x, Tup) and isinstance(y, Tup):
+                return len(x.items) == len(y.items) and all(same(i, j) for i, j in zip(x.items, y.items))
+            if isinstance(x, (DictV, dict, FnV)) or isinstance(y, (DictV, dict, FnV)):
+                return True          # not compared (models with dictionaries are loop-unrolled in the contracts)
+            try:
+                return bool(x == y)
+            except Exception:
+                return True
+        before = self.reachable_objs(before_env)
+        after = self.reachable_objs(self.env)
+        for uid, o in after.items():
+            b = before.get(uid)
+            if b is None:
+                continue
+            for attr, v in o.fields.items():
+                if attr in b.fields and not same(b.fields[attr], v) and (uid, attr) not in self._havocked_fields:
+                    raise ContractError('loop #%d changes %s.%s, which is not listed in Loop.havoc_fields' % (lid, o.name, attr))
 
     def havoc_value(self, v, name):
         if isinstance(v, bool):
@@ -1253,6 +1335,8 @@ class Executor:
             return self.fresh(name, BoolSort())
         if isinstance(v, int) or isinstance(v, z3.ArithRef):
             return self.fresh(name, I)
+        if isinstance(v, z3.ArrayRef):
+            return self.fresh(name, v.sort())
         if isinstance(v, SeqV):
             return SeqV(self.fresh(name, S), v.kind)
         if isinstance(v, bytes):
@@ -1294,6 +1378,7 @@ class Executor:
             except _Break:
                 return
             self._loop_entry = entry
+            self.check_loop_frame(self.iter_old_env, lid)
             self.loop_hints(spec, pre)
             self.vc(pre + '.preserve', self.inv(spec, self.env))
             for dn, dv in spec.decl.items():
@@ -1414,6 +1499,7 @@ class Executor:
                 pass
             except _Break:
                 return
+            self.check_loop_frame(self.iter_old_env, lid)
             self.loop_hints(spec, pre)
             for k, cl in enumerate(spec.iter_ensures):
                 self.vc('%s.iter_post.%d' % (pre, k), self.spec_bool(cl, self.env), kind='external')
@@ -1590,6 +1676,9 @@ class Executor:
         if is_intlike(base) and attr in INT_METHODS:
             f = INT_METHODS[attr]
             return FnV(lambda ex, *a, **k: f(ex, base, *a, **k), attr)
+        if base is None and getattr(self, '_in_spec', 0):
+            # a clause that selects a field of None does not hold on this path (python: AttributeError)
+            raise _Raise(ExcV('AttributeError'))
         raise Unsupported('attribute %s of %r' % (attr, base))
 
     def ev_Tuple(self, n):
@@ -1728,6 +1817,8 @@ class Executor:
             return a.methods['__add__'](self, a, b)
         if isinstance(b, Obj) and '__radd__' in b.methods and isinstance(op, ast.Add):
             return b.methods['__radd__'](self, b, a)
+        if isinstance(a, Obj) and isinstance(op, ast.LShift) and '__lshift__' in a.methods:
+            return a.methods['__lshift__'](self, a, b)
         if isinstance(a, SeqV) or isinstance(b, SeqV):
             if isinstance(op, ast.Mult):
                 s, k = (a, b) if isinstance(a, SeqV) else (b, a)
@@ -1906,6 +1997,9 @@ class Executor:
             x, y = toint(a), toint(b)
             return {ast.Lt: x < y, ast.LtE: x <= y, ast.Gt: x > y, ast.GtE: x >= y, ast.Eq: x == y,
                     ast.NotEq: x != y}[type(op)]
+        if isinstance(a, z3.ArrayRef) and isinstance(b, z3.ArrayRef) and isinstance(op, (ast.Eq, ast.NotEq)):
+            # ghost sets (characteristic functions): extensional equality
+            return a == b if isinstance(op, ast.Eq) else a != b
         if isinstance(a, RecSeqV) and isinstance(b, RecSeqV) and isinstance(op, (ast.Eq, ast.NotEq)) \
                 and len(a.cols) == len(b.cols) and a.eq is not None and a.eq == b.eq:
             # tuples of records: equal iff the fields that the records' own __eq__ looks at are equal, position by
@@ -2396,7 +2490,9 @@ def _bytes(ex, v=None):
     if v is None:
         return SeqV(Empty(S), 'bytes')
     if isinstance(v, Tup) and all(is_intlike(i) for i in v.items):
-        v = SeqV(mk_seq(v.items), v.kind)
+        z = mk_seq(v.items)
+        ex.pc.append(inr_fact_units(z, v.items))
+        v = SeqV(z, v.kind)
     if isinstance(v, SeqV):
         if v.kind == 'bytes':
             return v
@@ -2589,7 +2685,7 @@ def _ints2octs(ex, v=None):
 
 
 def _int2oct(ex, v):
-    return _bytes(ex, SeqV(mk_seq([v]), 'tuple'))
+    return _bytes(ex, Tup([v]))
 
 
 def _identity(ex, v):
